@@ -1690,6 +1690,11 @@ class Pool:
     def _help_stuff_finish(inqueue, task_handler, _pool):
         # task_handler may be blocked trying to put items on inqueue
         debug('removing tasks from inqueue until task handler finished')
+        if not task_handler.is_alive():
+            # nobody to help (e.g. pool started with threads=False): taking
+            # the read lock here would wait forever for an idle worker that
+            # holds it while blocked on the empty queue.
+            return
         inqueue._rlock.acquire()
         while task_handler.is_alive() and inqueue._reader.poll():
             inqueue._reader.recv()
